@@ -42,7 +42,12 @@ Inductive case :=
 (* CalculateNonce on two differently configured handler instances *)
 | NonceC (height : N) (txhash : string) (impl1 impl2 : N)
 (* crypto/sha256 against Lib/C15_Sha256 *)
-| Sha (msg : string) (impl : string).
+| Sha (msg : string) (impl : string)
+(* round 4 - a HISTORY on one long-lived FungibleTransferEventHandler built over one resources map
+   (as app.go does): blocks through ProcessDeposits, single transactions through
+   DecodeDepositEvent against the map's values; per step what came back and a deep snapshot of the
+   handler's resources / fee address after it.  rs: the resources in iteration order (ascending id) *)
+| Seq (rs : list resource) (faddr : string) (steps : list sobs).
 
 Definition dec_eqb (a b : dec) : bool :=
   match a, b with
@@ -66,6 +71,29 @@ Fixpoint zlist_eqb (a b : list Z) : bool :=
   | _, _ => false
   end.
 
+(* model = implementation for one transaction of a block; the SHA-256 of the nonce is evaluated only
+   when a message is emitted ([process] asks for the nonce of its own (height, hash) only) *)
+Definition otx_agree (rs : list resource) (f : string) (h : N) (t : otx) : bool :=
+  match process credited (fun _ _ => 0%N) (ot_outs t) rs f h (ot_hash t), ot_impl t with
+  | NoMsg, NoMsg => true
+  | Msg d _ r a rc, Msg d' n' r' a' rc' =>
+      let n0 := nonce h (ot_hash t) in
+      N.eqb n0 n' && N.eqb n0 (ot_nonce_seen t) &&
+      N.eqb d d' && bytes_eqb r r' && Z.eqb a a' && bytes_eqb rc rc'
+  | _, _ => false
+  end.
+
+Definition sobs_agree (rs : list resource) (f : string) (o : sobs) : bool :=
+  match o with
+  | OBlock h txs stray snap f' =>
+      forallb (otx_agree rs f h) txs && negb stray && config_kept (rs, f) snap f'
+  | ODec outs ri impl snap f' =>
+      match nth_error rs ri with
+      | Some r => dec_eqb (decode credited outs r f) impl
+      | None => false
+      end && config_kept (rs, f) snap f'
+  end.
+
 Definition agree (c : case) : bool :=
   match c with
   | Decode outs r f impl bits rid_ok =>
@@ -79,19 +107,18 @@ Definition agree (c : case) : bool :=
       pres_eqb (process credited (fun _ _ => n0) outs rs f h t) impl && N.eqb n0 n
   | NonceC h t n1 n2 => N.eqb (nonce h t) n1 && N.eqb (nonce h t) n2
   | Sha m d => bytes_eqb (sha256 (unhex m)) (unhex d)
+  | Seq rs f steps => forallb (sobs_agree rs f) steps
   end.
 
 Definition judge (c : case) : bool :=
   match c with
   | Decode outs r f impl _ _ => decode_ok outs r f impl
   | Process outs rs f h t impl n =>
-      match filter (pays_bridge outs) rs with
-      | [] => match impl with NoMsg => true | _ => negb (oprets_wf outs && sats_wf outs) end
-      | [r] => process_ok outs r f impl n
-      | _ => true (* several resources are paid: which one wins is C19's subject *)
-      end
+      (* several resources are paid: which one wins is C19's subject *)
+      tx_ok outs rs f impl n
   | NonceC h t n1 n2 => N.eqb n1 n2
   | Sha _ _ => true
+  | Seq rs f steps => seq_ok (rs, f) steps
   end.
 
 (* branch tag of the model (taken with the exact conversion [fun s => s], which by C15_sat_exact is
@@ -108,6 +135,7 @@ Definition tag (c : case) : N :=
       match process (fun s => s) (fun _ _ => 0%N) outs rs f h t with NoMsg => 10%N | Msg _ _ _ _ _ => 11%N end
   | NonceC _ _ _ _ => 20%N
   | Sha _ _ => 30%N
+  | Seq rs _ steps => (40 + N.min 9 (N.of_nat (List.length steps)))%N
   end.
 
 Definition check_all := check_cases agree judge tag.
